@@ -381,7 +381,7 @@ def check_select(ctx, P):
         fn = P.fn(CT + nm)
         loops = rules.iter_loops(fn)
         want_loops = 3 if both else 2
-        ok = len(loops) == want_loops and all(not l["early_exits"] for l in loops)
+        ok = len(loops) in ((3, 2) if both else (2,)) and all(not l["early_exits"] for l in loops)
         # mask = wrapping_neg(swap.0 [as u32])
         mk = [c for c in fn.calls() if c.name().endswith("::wrapping_neg")]
         okm = len(mk) == 1 and pred.canon(fn.expr(mk[0].args[0]), fn) in ("arg3.0",)
@@ -410,6 +410,19 @@ def check_select(ctx, P):
                     for c in rules.calls_between(fn, l["some"], {l["call"].bb}):
                         if re.search(r"as core::ops::BitXorAssign(<.*>)?>::bitxor_assign$", c.name()):
                             okx += 1
+            if len(srcs) == 3 and both:
+                # the two applications fused into one loop over (a.iter_mut(), b.iter_mut(), tmp.iter())
+                tgt = sorted(s_[1] for s_ in srcs if s_[0] == "iter_mut")
+                oth = [s_ for s_ in srcs if s_[0] == "iter"]
+                if tgt == ["arg1", "arg2"] and len(oth) == 1:
+                    nx = len([c for c in rules.calls_between(fn, l["some"], {l["call"].bb}) if re.search(r"as core::ops::BitXorAssign(<.*>)?>::bitxor_assign$", c.name())])
+                    for b_ in l["body"]:
+                        for s in fn.stmts(b_):
+                            if s[0] == "=" and s[1][1] == ["*"]:
+                                e = fn.rvalue_expr(s[2])
+                                if e[0] == "bin" and e[1] == "BitXor":
+                                    nx += 1
+                    okx += min(nx, 2)
         ctx.check(ok and okm and okt and okx == (2 if both else 1), "select", nm, "mask = -(swap); tmp = (a ^ b) & mask over all elements; a ^= tmp%s" % ("; b ^= tmp" if both else ""),
                   "%s is not the masked xor-swap / xor-set over all elements (loops %d, mask %s, tmp %s, applied to %d operand(s))" % (nm, len(loops), okm, okt, okx), where=fn.where(), key="select:%s" % nm)
 
